@@ -138,8 +138,9 @@ Print Assumptions C06_ambiguous_imports_refuted.
 
 (* the hypotheses of C06_multi_hash_order_irrelevant are satisfiable by a non-trivial workspace: three crates, `use alpha::Item;`,
    `use beta::*;`, `use alpha::Node;` with Node serde-renamed AlphaNode, two files in the importing crate; the arrival list and
-   its reverse, the identity and the reversed iteration orders: in no class, app imports Item from ./alpha and everything
-   from ./beta, refers to AlphaNode, and the generated files coincide *)
+   its reverse, the identity and the reversed iteration orders: in no class, app imports Item and AlphaNode (the
+   name alpha generates Node under: the import set is put back with the generated names, reconcile.rs:71) from ./alpha and
+   everything from ./beta, refers to AlphaNode, and the generated files coincide *)
 Theorem C06_multi_nonvacuous :
   exists arrivals,
     parse_workspace uc_exec [] [] (fun l => l) Proofs.C06MultiWitness.ws_clean = Ok arrivals /\
@@ -148,7 +149,7 @@ Theorem C06_multi_nonvacuous :
     Proofs.C14Front.oracle_ok (@Proofs.C14Witness.idl (str * list str)) /\ Proofs.C14Front.oracle_ok (@rev (str * list str)) /\
     map fst (multi_crates Proofs.C14Witness.idl arrivals) = [lit "alpha"; lit "app"; lit "beta"] /\
     Proofs.C06MultiWitness.app_field_types (multi_crates (@rev _) (rev arrivals)) = [RSimple (lit "Item"); RSimple (lit "Leaf"); RSimple (lit "AlphaNode")] /\
-    Proofs.C06MultiWitness.app_imports (@rev _) (multi_crates (@rev _) (rev arrivals)) = [(lit "alpha", lit "Item"); (lit "beta", lit "Edge"); (lit "beta", lit "Leaf")] /\
+    Proofs.C06MultiWitness.app_imports (@rev _) (multi_crates (@rev _) (rev arrivals)) = [(lit "alpha", lit "AlphaNode"); (lit "alpha", lit "Item"); (lit "beta", lit "Edge"); (lit "beta", lit "Leaf")] /\
     generate_crates Proofs.C06MultiWitness.m_ts_gen [] (multi_plan TypeScript Proofs.C14Witness.idl (multi_crates Proofs.C14Witness.idl arrivals)) =
     generate_crates Proofs.C06MultiWitness.m_ts_gen [] (multi_plan TypeScript (@rev _) (multi_crates (@rev _) (rev arrivals))).
 Proof. exact Proofs.C06MultiWitness.multi_nonvacuous. Qed.
